@@ -2,7 +2,7 @@
    nat, positive, N, Z stay as extracted inductives; no Extract Constant /
    Extract Inductive directives of our own. *)
 Require Import Coq.extraction.Extraction Coq.extraction.ExtrOcamlBasic.
-From Gdsl.Model Require Import Base NodeOps Search Callback Container Scc Serde Macro Own Conc ConcClass EdgeCmp.
+From Gdsl.Model Require Import Base NodeOps Search Callback Container Scc Serde Macro Own Conc ConcClass EdgeCmp PathApi.
 Extraction Language OCaml.
 Set Extraction KeepSingleton.
 Extraction "model.ml"
@@ -18,6 +18,7 @@ Extraction "model.ml"
   Container.g_get Container.g_contains Container.g_insert Container.g_remove Container.g_len Container.g_is_empty
   Container.g_iter Container.g_roots Container.g_leaves Container.g_orphans Container.g_to_dot Container.g_to_dot_attr
   Macro.macro_build
+  PathApi.p_len PathApi.p_first_edge PathApi.p_last_edge PathApi.p_first_node PathApi.p_last_node PathApi.p_index PathApi.p_to_vec_edges PathApi.p_iter_nodes
   ConcClass.known_class
   EdgeCmp.edge_eqb_d EdgeCmp.edge_eqb_u EdgeCmp.edge_cmp
   Conc.init_config Conc.run_sched Conc.explore Conc.cstep Conc.prog_of
